@@ -9,21 +9,27 @@
 package main
 
 import (
+	"context"
 	"encoding/json"
 	"flag"
 	"fmt"
 	"io"
 	"math"
+	"net"
 	"os"
 	"sort"
 	"strings"
+	"sync"
 	"time"
 
 	log "github.com/golang/glog"
 	"github.com/openconfig/gnmi/cache"
 	"github.com/openconfig/gnmi/ctree"
 	"github.com/openconfig/gnmi/errlist"
+	"github.com/openconfig/gnmi/subscribe"
 	"github.com/openconfig/gnmi/zz_verif/vh"
+	"google.golang.org/grpc"
+	"google.golang.org/grpc/peer"
 	"google.golang.org/protobuf/proto"
 	"google.golang.org/protobuf/types/known/anypb"
 
@@ -77,7 +83,9 @@ type NotiJ struct {
 	PfxSpare int     `json:"psp,omitempty"`
 }
 
-// Op kinds: upd reset remove add sync connect connecterror updatemeta.
+// Op kinds: upd reset remove add sync connect connecterror updatemeta, and the
+// harness-only hold / release (the gated subscribers' Send blocks / resumes;
+// the cache is not called).
 type Op struct {
 	K   string `json:"k"`
 	Now int64  `json:"now,omitempty"`
@@ -109,6 +117,7 @@ type CfgJ struct {
 type Case struct {
 	Family  string   `json:"family"`
 	Cfg     CfgJ     `json:"cfg"`
+	Subs    int      `json:"subs,omitempty"` // the change feed is also consumed by a real subscribe.Server with this many gated STREAM subscribers on target t
 	Targets []string `json:"targets"`
 	Ops     []Op     `json:"ops"`
 	Obs     []ObsJ   `json:"obs,omitempty"`
@@ -349,10 +358,158 @@ func classify(err error) (string, []string) {
 }
 
 type runner struct {
-	c      *cache.Cache
-	feed   []NotiJ
-	known  []string
-	shared shared
+	c       *cache.Cache
+	feed    []NotiJ
+	known   []string
+	shared  shared
+	srv     *subscribe.Server
+	streams []*gstream
+	inputs  []inputRec
+}
+
+// inputRec is a notification handed to GnmiUpdate and its deep copy taken
+// before the call.
+type inputRec struct{ n, cp *pb.Notification }
+
+// inputsMutated: does any notification ever handed in differ from its copy?
+func (r *runner) inputsMutated() bool {
+	for _, in := range r.inputs {
+		if !proto.Equal(in.n, in.cp) {
+			return true
+		}
+	}
+	return false
+}
+
+// gstream is an in-memory Subscribe stream whose Send the harness gates.
+type gstream struct {
+	grpc.ServerStream
+	ctx    context.Context
+	cancel context.CancelFunc
+	req    *pb.SubscribeRequest
+	mu     sync.Mutex
+	cond   *sync.Cond
+	held   bool
+	recvd  bool
+	sent   int
+	synced bool
+	done   chan struct{}
+}
+
+func newGstream(i int, target string) *gstream {
+	ctx := peer.NewContext(context.Background(), &peer.Peer{Addr: &net.TCPAddr{IP: net.IPv4(127, 0, 0, 1), Port: 2000 + i}})
+	ctx, cancel := context.WithCancel(ctx)
+	sl := &pb.SubscriptionList{
+		Prefix:       &pb.Path{Target: target},
+		Mode:         pb.SubscriptionList_STREAM,
+		Subscription: []*pb.Subscription{{Path: &pb.Path{}}},
+	}
+	g := &gstream{ctx: ctx, cancel: cancel, done: make(chan struct{}),
+		req: &pb.SubscribeRequest{Request: &pb.SubscribeRequest_Subscribe{Subscribe: sl}}}
+	g.cond = sync.NewCond(&g.mu)
+	return g
+}
+
+func (g *gstream) Context() context.Context { return g.ctx }
+
+func (g *gstream) Recv() (*pb.SubscribeRequest, error) {
+	g.mu.Lock()
+	first := !g.recvd
+	g.recvd = true
+	g.mu.Unlock()
+	if first {
+		return g.req, nil
+	}
+	<-g.ctx.Done()
+	return nil, g.ctx.Err()
+}
+
+func (g *gstream) Send(r *pb.SubscribeResponse) error {
+	g.mu.Lock()
+	defer g.mu.Unlock()
+	for g.held && g.ctx.Err() == nil {
+		g.cond.Wait()
+	}
+	g.sent++
+	if r.GetSyncResponse() {
+		g.synced = true
+	}
+	return nil
+}
+
+func (g *gstream) setHeld(h bool) {
+	g.mu.Lock()
+	g.held = h
+	g.mu.Unlock()
+	g.cond.Broadcast()
+}
+
+func (g *gstream) count() (int, bool) {
+	g.mu.Lock()
+	defer g.mu.Unlock()
+	return g.sent, g.synced
+}
+
+// quiesce waits until no subscriber has sent anything for quiet (the held
+// ones cannot), at most one second.
+func (r *runner) quiesce(quiet time.Duration) {
+	if len(r.streams) == 0 {
+		return
+	}
+	total := func() int {
+		t := 0
+		for _, g := range r.streams {
+			c, _ := g.count()
+			t += c
+		}
+		return t
+	}
+	last, since, start := total(), time.Now(), time.Now()
+	for time.Since(start) < time.Second {
+		time.Sleep(time.Millisecond)
+		if c := total(); c != last {
+			last, since = c, time.Now()
+		} else if time.Since(since) >= quiet {
+			return
+		}
+	}
+}
+
+func (r *runner) startSubscribers(n int, target string) {
+	srv, err := subscribe.NewServer(r.c)
+	if err != nil {
+		panic(err)
+	}
+	r.srv = srv
+	for i := 0; i < n; i++ {
+		g := newGstream(i, target)
+		r.streams = append(r.streams, g)
+		go func() {
+			defer close(g.done)
+			defer func() { recover() }()
+			srv.Subscribe(g)
+		}()
+	}
+	for _, g := range r.streams { // wait for the sync of every subscriber
+		for t0 := time.Now(); time.Since(t0) < 2*time.Second; time.Sleep(time.Millisecond) {
+			if _, ok := g.count(); ok {
+				break
+			}
+		}
+	}
+}
+
+func (r *runner) stopSubscribers() {
+	for _, g := range r.streams {
+		g.cancel()
+		g.setHeld(false)
+	}
+	for _, g := range r.streams {
+		select {
+		case <-g.done:
+		case <-time.After(2 * time.Second):
+		}
+	}
 }
 
 func (r *runner) know(t string) {
@@ -404,10 +561,9 @@ func (r *runner) apply(o Op) (res ObsJ) {
 		switch o.K {
 		case "upd":
 			n := r.shared.mkNoti(o.N)
-			cp := proto.Clone(n).(*pb.Notification)
+			r.inputs = append(r.inputs, inputRec{n: n, cp: proto.Clone(n).(*pb.Notification)})
 			err := r.c.GnmiUpdate(n)
 			ob.Res, ob.Multi = classify(err)
-			ob.Mutated = !proto.Equal(cp, n)
 		case "reset":
 			r.c.Reset(o.Tgt)
 			ob.Res = "ok"
@@ -429,6 +585,16 @@ func (r *runner) apply(o Op) (res ObsJ) {
 		case "updatemeta":
 			r.c.UpdateMetadata()
 			ob.Res = "ok"
+		case "hold":
+			for _, g := range r.streams {
+				g.setHeld(true)
+			}
+			ob.Res = "ok"
+		case "release":
+			for _, g := range r.streams {
+				g.setHeld(false)
+			}
+			ob.Res = "ok"
 		default:
 			panic("unknown op " + o.K)
 		}
@@ -446,6 +612,16 @@ func (r *runner) apply(o Op) (res ObsJ) {
 	}
 	res.Feed = r.feed
 	r.feed = nil
+	// let the subscribers drain what they may (nothing while held), then look
+	// at every notification ever handed in
+	if o.K == "release" {
+		r.quiesce(15 * time.Millisecond)
+	} else {
+		r.quiesce(4 * time.Millisecond)
+	}
+	if res.Res != "panic" {
+		res.Mutated = r.inputsMutated()
+	}
 	func() {
 		defer func() {
 			if p := recover(); p != nil {
@@ -471,15 +647,21 @@ func runCase(c *Case) {
 	for _, t := range c.Targets {
 		r.know(t)
 	}
+	if c.Subs > 0 {
+		r.startSubscribers(c.Subs, c.Targets[0])
+		defer r.stopSubscribers()
+	}
 	r.c.SetClient(func(l *ctree.Leaf) {
 		n, ok := l.Value().(*pb.Notification)
 		if !ok {
 			panic(fmt.Sprintf("callback got a %T", l.Value()))
 		}
-		if isMetaNoti(n) {
-			return // projected out, as in the dump
+		if !isMetaNoti(n) { // metadata is projected out, as in the dump
+			r.feed = append(r.feed, projNoti(n))
 		}
-		r.feed = append(r.feed, projNoti(n))
+		if r.srv != nil { // chained: the real subscribe.Server consumes the same feed
+			r.srv.Update(l)
+		}
 	})
 	c.Obs = make([]ObsJ, len(c.Ops))
 	for i, o := range c.Ops {
@@ -671,6 +853,8 @@ func (t *termer) op(o *Op) string {
 		return fmt.Sprintf("OConnectError %s %s %s", vh.Z(o.Now), t.str(o.Tgt), t.str(o.Msg))
 	case "updatemeta":
 		return "OUpdateMeta " + vh.Z(o.Now)
+	case "hold", "release":
+		return "ONop"
 	}
 	panic("op")
 }
@@ -711,10 +895,12 @@ func elems(names ...string) []ElemJ {
 	return out
 }
 
-func pfx(target string, names ...string) *PathJ { return &PathJ{Target: target, Elems: elems(names...)} }
-func pth(names ...string) *PathJ                { return &PathJ{Elems: elems(names...)} }
-func ival(i int64) *ValJ                        { return &ValJ{K: "int", I: i} }
-func sval(s string) *ValJ                       { return &ValJ{K: "str", S: s} }
+func pfx(target string, names ...string) *PathJ {
+	return &PathJ{Target: target, Elems: elems(names...)}
+}
+func pth(names ...string) *PathJ { return &PathJ{Elems: elems(names...)} }
+func ival(i int64) *ValJ         { return &ValJ{K: "int", I: i} }
+func sval(s string) *ValJ        { return &ValJ{K: "str", S: s} }
 
 func updN(ts int64, prefix *PathJ, p *PathJ, v *ValJ) *NotiJ {
 	return &NotiJ{TS: ts, Prefix: prefix, Upd: []UpdJ{{Path: p, Val: v}}}
@@ -838,9 +1024,10 @@ func (e *emitter) add(c *Case) {
 	e.meta.Hist(fmt.Sprintf("len:%02d", (len(c.Ops)/5)*5))
 	cj, _ := json.Marshal(struct {
 		C CfgJ
+		S int
 		T []string
 		O []Op
-	}{c.Cfg, c.Targets, c.Ops})
+	}{c.Cfg, c.Subs, c.Targets, c.Ops})
 	e.meta.Count(c.Family, string(cj), nontrivial, map[string]interface{}{"family": c.Family, "cfg": c.Cfg, "ops": c.Ops})
 	if e.cf.Len() >= e.limit {
 		e.flush()
